@@ -368,6 +368,9 @@ def programs(tier):
         R(kids=[W()]),
         W(kids=[W(blocking=False)]),
         R(reentrant=True, kids=[R(reentrant=True, kids=[W(reentrant=True)])]),
+        W(reentrant=True, kids=[R(reentrant=True, kids=[W(reentrant=True)])]),
+        R(reentrant=True, kids=[W(reentrant=True, kids=[W(reentrant=True)])]),
+        W(reentrant=True, kids=[W(reentrant=True), R(reentrant=True)]),
         R(kids=[R(path="q")]),
         W(kids=[W(path="q")]),
     ]
